@@ -611,13 +611,31 @@ def check_bare_key_children(run: Run, rule: str = "R01.8") -> None:
             if not (isinstance(key, ast.Constant) and key.value == ""):
                 continue
             n += 1
-            par = getattr(c, "_parent", None)
-            lst = par.func.value.id if isinstance(par, ast.Call) and isinstance(par.func, ast.Attribute) and par.func.attr in ("append", "insert") and isinstance(par.func.value, ast.Name) else None
-            parents = set()
-            if lst is not None:
-                for k in walk_no_nested(fi.node):
-                    if isinstance(k, ast.Call) and isinstance(k.func, ast.Name) and k.func.id in emitter_of and any(isinstance(a, ast.Name) and a.id == lst for a in list(k.args) + [kw.value for kw in k.keywords]):
-                        parents.add(k.func.id)
+            def parents_in(fnode: ast.AST, value_node: ast.AST) -> set[str]:
+                """the node classes constructed in `fnode` with the list that `value_node` is appended to"""
+                par = getattr(value_node, "_parent", None)
+                lst = par.func.value.id if isinstance(par, ast.Call) and isinstance(par.func, ast.Attribute) and par.func.attr in ("append", "insert") and isinstance(par.func.value, ast.Name) else None
+                if lst is None and isinstance(par, ast.Assign) and len(par.targets) == 1 and isinstance(par.targets[0], ast.Name):
+                    # bound to a local first: follow the local into an append
+                    nm = par.targets[0].id
+                    for k in walk_no_nested(fnode):
+                        if isinstance(k, ast.Call) and isinstance(k.func, ast.Attribute) and k.func.attr in ("append", "insert") and isinstance(k.func.value, ast.Name) and any(isinstance(a, ast.Name) and a.id == nm for a in k.args):
+                            lst = k.func.value.id
+                out: set[str] = set()
+                if lst is not None:
+                    for k in walk_no_nested(fnode):
+                        if isinstance(k, ast.Call) and isinstance(k.func, ast.Name) and k.func.id in emitter_of and any(isinstance(a, ast.Name) and a.id == lst for a in list(k.args) + [kw.value for kw in k.keywords]):
+                            out.add(k.func.id)
+                return out
+
+            parents = parents_in(fi.node, c)
+            if not parents:
+                # built by a helper that hands the node back: look at what its callers do with the result
+                short = q.split(".")[-1]
+                for q2, f2 in pm.functions.items():
+                    for k in walk_no_nested(f2.node):
+                        if isinstance(k, ast.Call) and ((isinstance(k.func, ast.Attribute) and k.func.attr == short) or (isinstance(k.func, ast.Name) and k.func.id == short)):
+                            parents |= parents_in(f2.node, k)
             if not parents:
                 raise AnalysisError(f"{q}: Assignment(key=\"\") is built but the Block / Section / Document it becomes a child of is not found in the same function; who emits it is not decided")
             for P in sorted(parents):
